@@ -116,7 +116,7 @@ func genMetaOp(t *rapid.T, base uint64, allowTrick bool) Op {
 	case k < 16:
 		op.KeyKind = "shape"
 		op.Key = rapid.SampledFrom(shapeKeys(base)).Draw(t, "shapekey")
-	case k < 19 || !allowTrick:
+	case k < 19 || !allowTrick || rapid.IntRange(0, 2).Draw(t, "trick") != 0:
 		op.KeyKind = "hashref"
 		op.HashRef = rapid.IntRange(0, 7).Draw(t, "hashref")
 	default:
@@ -554,7 +554,7 @@ func bucket(n int) int {
 
 // TestC14Model: histories with reopen and sampled crashes on the crash double.
 func TestC14Model(t *testing.T) {
-	world.Run(t, "C14", "store-model", world.Scale(500, 5000), genHistory(30, true, true), func(sc Scenario) world.Verdict {
+	world.Run(t, "C14", "store-model", world.Scale(500, 5000), genHistory(world.Scale(30, 60), true, true), func(sc Scenario) world.Verdict {
 		return runHistory(sc, &crashBackend{})
 	})
 }
@@ -567,7 +567,7 @@ func TestC14CrashEnum(t *testing.T) {
 // genBadger draws a history for the on-disk check; a reopen happens in every case (durability
 // is what that check is for).
 func genBadger(t *rapid.T) Scenario {
-	sc := genHistory(14, false, false)(t)
+	sc := genHistory(world.Scale(14, 25), false, false)(t)
 	for _, op := range sc.Ops {
 		if op.Kind == "reopen" {
 			return sc
@@ -579,7 +579,7 @@ func genBadger(t *rapid.T) Scenario {
 
 // TestC14Badger: the same histories on a real on-disk badger that is closed and reopened.
 func TestC14Badger(t *testing.T) {
-	world.Run(t, "C14", "badger-reopen", world.Scale(20, 60), genBadger, func(sc Scenario) world.Verdict {
+	world.Run(t, "C14", "badger-reopen", world.Scale(20, 150), genBadger, func(sc Scenario) world.Verdict {
 		dir, err := os.MkdirTemp("", "c14-badger-")
 		if err != nil {
 			return world.Verdict{Excluded: true, Labels: []string{"no-tempdir"}}
